@@ -16,7 +16,7 @@
 From Coq Require Import ZArith List Lia.
 Import ListNotations.
 From Mds Require Import Stree.StreeModel Stree.StreeSpec Stree.StreeProofsSet Stree.CursorModel Stree.CursorSpec
-  Stree.CursorProofs Stree.CursorProofsOrder.
+  Stree.CursorProofs Stree.CursorProofsOrder Stree.CursorHeap Stree.CursorHeapProofs.
 
 (* Every history of Next/Prev/Left/Right/Up/Min/Max, from any cursor inside any tree (ordering is
    not needed: these are facts about positions), for any zero key: no panic, no fuel exhaustion,
@@ -137,10 +137,32 @@ Theorem C03_invalid_identity : forall (T : Type) (zero : T) (t : tree T) (c : cu
 Proof. exact invalid_identity. Qed.
 Print Assumptions C03_invalid_identity.
 
-(* Clone points to the same location (independence of later moves: correspondence only) *)
+(* Clone points to the same location (as a value the clone is the original's path) *)
 Theorem C03_clone_value : forall c : cursor, clone c = c.
 Proof. exact clone_same. Qed.
 Print Assumptions C03_clone_value.
+
+(* "A Clone moves independently" (and every other way two cursors could influence one another).
+   CursorHeap.v models the STORE: cursors are heap objects, a path is a Go slice (backing array,
+   length, capacity) of node addresses; append writes into the array while there is capacity and
+   otherwise allocates one whose capacity an oracle [grow] chooses; Next/Prev/Left/Right/Min/Max
+   append, Next/Prev/Up reslice, invalidation stores nil; Tree.Cursor appends to a nil slice, Root
+   is a one-element literal; Clone returns the receiver itself when it is invalid and otherwise a
+   new object whose path is slices.Clone of the original's (a new array) — [hrun_go] takes that from
+   the source (Gen/CursorStore.v: Cursor.Clone calls slices.Clone once).  Registers hold *Cursor
+   pointers.  After every operation every register is READ BACK from the arrays, every entry of
+   its slice (a chain that is not root ... node reads as a failure).
+   For every capacity oracle, tree, comparison, number of registers and history of
+   Tree.Cursor(k) / Root / nil / new(Cursor) / Clone from one register into another / any of the
+   seven moves on any register: what the store shows after every operation is exactly what the
+   machine with cursors as VALUES shows ([vrun]: registers are independent by construction, Clone
+   is the copy of a value) — failures included.  So moving a clone never changes its original,
+   moving the original never changes the clone, whatever else was cloned or moved before. *)
+Theorem C03_clone_independent : forall (grow : nat -> nat -> nat) (T : Type) (cmp : T -> T -> Z) (t : tree T)
+  (n : nat) (ops : list (hop T)),
+  hrun_go grow T cmp t n ops = vrun T cmp t (repeat CNil n) ops.
+Proof. exact heap_independent. Qed.
+Print Assumptions C03_clone_independent.
 
 (* ---- the hypotheses are satisfiable by non-trivial states, and the model computes *)
 Definition ex_tree : tree Z := Node (Node Leaf 1%Z (Node Leaf 2%Z Leaf)) 3%Z (Node Leaf 4%Z Leaf).
@@ -209,3 +231,25 @@ Example C03_reachable_sorted_example :
          [ONew 1000 [] []; OAdd 0 1; OAdd 0 5; OAdd 0 3; OAdd 0 4; OAdd 0 2; ORemove 0 3; OReplace 0 5]%Z)
   = [[1; 2; 4; 5]%Z].
 Proof. vm_compute. reflexivity. Qed.
+
+(* clone, move the original up and down the other branch, then the clone by two Next; Root, Min,
+   Up twice (invalid), clone of the invalid cursor, Next on it: the store shows the values *)
+Definition ex_t3 : tree Z := Node (Node Leaf 10%Z Leaf) 20%Z (Node Leaf 30%Z Leaf).
+Definition ex_hops : list (hop Z) :=
+  [HK 0 10%Z; HC 0 1; HM 0 MUp; HM 0 MRight; HM 1 MNext; HM 1 MNext; HO 2; HM 2 MMin; HM 2 MUp; HM 2 MUp; HC 2 3; HM 3 MNext].
+
+Example C03_clone_independent_example :
+  hrun_go (fun _ n => n) Z Z.sub ex_t3 4 ex_hops =
+  [Ok [CAt [L]; CNil; CNil; CNil]; Ok [CAt [L]; CAt [L]; CNil; CNil]; Ok [CAt []; CAt [L]; CNil; CNil];
+   Ok [CAt [R]; CAt [L]; CNil; CNil]; Ok [CAt [R]; CAt []; CNil; CNil]; Ok [CAt [R]; CAt [R]; CNil; CNil];
+   Ok [CAt [R]; CAt [R]; CAt []; CNil]; Ok [CAt [R]; CAt [R]; CAt [L]; CNil]; Ok [CAt [R]; CAt [R]; CAt []; CNil];
+   Ok [CAt [R]; CAt [R]; CEmpty; CNil]; Ok [CAt [R]; CAt [R]; CEmpty; CEmpty]; Ok [CAt [R]; CAt [R]; CEmpty; CEmpty]].
+Proof. vm_compute. reflexivity. Qed.
+
+(* The store model tells the difference: were Clone to keep the original's array (slices.Clip, or the
+   slice itself), the clone in register 1 reads [R] after the ORIGINAL went Up and Right. *)
+Example C03_clone_sharing_shows :
+  nth 3 (hrun (fun _ n => n) false Z Z.sub ex_t3 (empty_heap, repeat None 4) ex_hops) Panic
+    = Ok [CAt [R]; CAt [R]; CNil; CNil] /\
+  nth 3 (vrun Z Z.sub ex_t3 (repeat CNil 4) ex_hops) Panic = Ok [CAt [R]; CAt [L]; CNil; CNil].
+Proof. vm_compute. split; reflexivity. Qed.
